@@ -112,3 +112,10 @@ fn c21_o2_local_cancel_unwinds() {
     std::mem::forget(local);
     std::mem::forget(z);
 }
+
+/// A `Zalsa` (arbitrary INV runtime state) holding the given ingredients at indices 0, 1, ...
+pub(crate) fn zalsa_with(ingredients: Vec<Box<dyn Ingredient>>) -> (Zalsa, [usize; 3]) {
+    let (mut z, revs) = any_zalsa();
+    std::mem::forget(std::mem::replace(&mut z.ingredients_vec, ingredients));
+    (z, revs)
+}
